@@ -79,9 +79,15 @@ func mkCache(a int) (bgzf.Cache, string) {
 	return c, name
 }
 
+// known finding: a cache attached again after having been detached (see known_findings.json)
+var knownReattach = h.KnownRegion("C03", "cache-reattached")
+
 func opGen() *rapid.Generator[bz.ROp] {
 	return rapid.Custom(func(t *rapid.T) bz.ROp {
 		if rapid.IntRange(0, 9).Draw(t, "setcache") == 0 {
+			if !knownReattach && rapid.IntRange(0, 2).Draw(t, "again") == 0 {
+				return bz.ROp{K: "setcache", A: 1000 + rapid.IntRange(0, 3).Draw(t, "which")}
+			}
 			kind := rapid.IntRange(0, 3).Draw(t, "kind")
 			cp := rapid.SampledFrom([]int{1, 1, 2, 2, 3, 4, 6, 8, 16}).Draw(t, "cap")
 			st := rapid.IntRange(0, 1).Draw(t, "stats")
@@ -140,6 +146,7 @@ func run(c Case, rec *h.Rec) {
 	var st, st0 bz.RStats
 	st.WantTrace, st0.WantTrace = true, true
 	var meters []*meter
+	var attached []bgzf.Cache
 	kinds := map[string]bool{}
 	ok := h.Call(15*time.Second, func() {
 		src := bz.NewFaultReader(f.Bytes)
@@ -153,6 +160,16 @@ func run(c Case, rec *h.Rec) {
 			if op.K != "setcache" {
 				return ""
 			}
+			if op.A >= 1000 {
+				// attach again a cache that was attached earlier in this history
+				// (it may still hold blocks from then)
+				if len(attached) == 0 || (knownReattach && !h.Replaying()) {
+					return ""
+				}
+				r.SetCache(attached[(op.A-1000)%len(attached)])
+				kinds["reattached"] = true
+				return ""
+			}
 			cc, name := mkCache(op.A)
 			kinds[name] = true
 			if cc == nil {
@@ -162,11 +179,13 @@ func run(c Case, rec *h.Rec) {
 			if i%4 == 3 {
 				// every fourth cache is attached without the neutral meter around it
 				r.SetCache(cc)
+				attached = append(attached, cc)
 				return ""
 			}
 			m := &meter{Cache: cc}
 			meters = append(meters, m)
 			r.SetCache(m)
+			attached = append(attached, m)
 			return ""
 		}
 		msg = bz.RunHistory(r, f, c.Ops, hook, func(s string) { cur.Store(s) }, &st)
